@@ -7,6 +7,7 @@ from vlib.proto import hexs
 # text means the same in LY_VALUE_JSON (lyd_eval_xpath*) and in a must/when statement.
 # node = (kind, module, name, extra)   kind: c container | l list | L leaf-list | f leaf
 STR, INT, BOOL, ENUM, BITS, IDREF, LREF = "string", "int32", "boolean", "enum", "bits", "idref", "leafref"
+ENUM2, DEC, U8, IDREF2, LREFI = "enum2", "dec64", "uint8", "idref2", "leafref-int"
 
 
 def N(kind, mod, name, typ=None, keys=(), kids=(), userord=False, dflt=None, presence=False, always=False):
@@ -16,7 +17,8 @@ def N(kind, mod, name, typ=None, keys=(), kids=(), userord=False, dflt=None, pre
 
 YANG_A = """module xpa {
   yang-version 1.1; namespace "urn:xpa"; prefix xpa;
-  identity base-id; identity id-a { base base-id; } identity id-b { base id-a; }
+  identity base-id; identity id-a { base base-id; } identity id-b { base id-a; } identity id-c { base base-id; }
+  identity other; identity id-m { base id-c; base other; }
   container c {
     leaf s { type string; }
     leaf n { type int32; }
@@ -24,6 +26,11 @@ YANG_A = """module xpa {
     leaf e { type enumeration { enum one {value 1;} enum two {value 2;} enum ten {value 10;} } }
     leaf bits { type bits { bit x; bit y; bit z; } }
     leaf idr { type identityref { base base-id; } }
+    leaf e2 { type enumeration { enum neg {value -5;} enum auto; enum big {value 70000;} enum next; } }
+    leaf dec { type decimal64 { fraction-digits 2; } }
+    leaf u8 { type uint8; }
+    leaf-list idl { type identityref { base base-id; base other; } }
+    leaf aref { type leafref { path "/xpa:c/xpa:ll"; require-instance false; } }
     leaf d { type string; default "dflt"; }
     leaf-list ll { type int32; }
     leaf-list ls { type string; ordered-by user; }
@@ -39,6 +46,7 @@ YANG_A = """module xpa {
 }
 """
 YANG_B = """module xpb { yang-version 1.1; namespace "urn:xpb"; prefix xpb; import xpa {prefix xpa;}
+  identity idx { base xpa:id-b; } identity other { base xpa:other; }
   augment /xpa:c { leaf v {type string;} leaf s {type string;}  container ext { leaf x {type string;} leaf-list z {type int32;} leaf t {type string;} } }
   augment /xpa:c/xpa:l1 { leaf v {type string;} }
 }
@@ -47,6 +55,7 @@ A, B = "xpa", "xpb"
 SCHEMA1 = [
     N("c", A, "c", kids=[
         N("f", A, "s", STR), N("f", A, "n", INT), N("f", A, "b", BOOL), N("f", A, "e", ENUM), N("f", A, "bits", BITS), N("f", A, "idr", IDREF),
+        N("f", A, "e2", ENUM2), N("f", A, "dec", DEC), N("f", A, "u8", U8), N("L", A, "idl", IDREF2), N("f", A, "aref", LREFI),
         N("f", A, "d", STR, dflt="dflt"), N("L", A, "ll", INT), N("L", A, "ls", STR, userord=True),
         N("l", A, "l1", keys=["k"], kids=[N("f", A, "k", STR), N("f", A, "v", INT), N("L", A, "w", STR),
                                           N("c", A, "in", kids=[N("f", A, "x", STR, always=True), N("f", A, "y", INT), N("f", A, "t", STR, always=True)]), N("f", B, "v", STR)]),
@@ -64,15 +73,157 @@ CONFLICT = {"s", "v"}
 # Every inner node of a generated tree has at least two terminal descendants (the `always` leaves): libyang renders the string-value of an
 # inner node as an indented block (F255) and canonises a string operand by the type of the node it is compared with (deliberate) — a block
 # with a single numeric line would be a valid int32 lexical form with surrounding white space.
-# value pools.  No string is a valid but non-canonical lexical form of int32 / bits / identityref, so libyang's
-# canonisation of the string operand of a comparison (set_comp_canonize, deliberate) is the identity on them.
+# value pools.  STR_POOL holds no valid non-canonical lexical form of a typed leaf; NONCANON_POOL below does (set_comp_canonize is modelled).
 STR_POOL = ["a", "b", "c", "ab", "abc", "x y", "5", "10", "-7", "1.5", "true", "dflt", "a b  c", " lead", "trail ", "1e3", "it's", 'say "hi"', "p\tq", "p\nq", "\tr\n", "s \t\n t",
-            "a'b\"c", "x", "y", "z", "0", "", "<&>", "A", "bx", "NaN", "Infinity", "ü€x", "añb"]
+            "a'b\"c", "x", "y", "z", "0", "", "<&>", "A", "bx", "NaN", "Infinity", "ü€x", "añb", "05", "+5", "z x", "1.50", "id-a"]
 KEY_POOL = ["a", "b", "c", "ab", "x y", "5", "10", "it's", 'q"q', "a'b\"c", "x", "y", "z", "k 1", "A"]
 INT_POOL = [0, 1, 2, 3, 5, 10, -7, 100, 4, 7]
 ENUM_POOL = ["one", "two", "ten"]
 BITS_POOL = ["x", "x z", "y", "x y z", "z"]
-IDREF_POOL = ["id-a", "id-b"]
+IDREF_POOL = ["id-a", "id-b", "id-c", "id-m", "xpb:idx"]
+ENUM2_POOL = ["neg", "auto", "big", "next"]
+DEC_POOL = ["1.5", "0.0", "-2.25", "10.0", "3.0", "0.07"]
+U8_POOL = [0, 5, 7, 10, 255]
+IDREF2_POOL = ["id-m"]      # derived from ALL bases of the type (F410: libyang accepts an identity derived from SOME base)
+# valid but NON-canonical lexical forms of the typed leaves (and near misses): libyang canonises a string operand by the type of the node it is
+# compared with (set_comp_canonize, F355); the engine does the same through the value models of property C03
+NONCANON_POOL = ["05", "+5", " 5", "5 ", "\t10\n", "-07", "+0", "-0", "007", "0x5", "5.0", "1e1", "2147483648", "256", "+255", "0255",
+                 "z x", "x  z", " y", "z y x", "x x", "x w", "y\tx", "id-a", "xpa:id-a", "xpb:id-a", "idx", "xpb:idx", ":id-a", "id-m", "nosuch:id-a",
+                 "1.50", "+1.5", "01.5", "1.500", "1.505", ".5", "3", "3.", "-2.250", " 10.00 ", "-0.0", "+.07", "0.070"]
+
+
+# ----------------------------------------------------------------------------------------------------------------------
+# schema facts for the Lean engine, derived from the YANG TEXT above by a small statement parser (independent of libyang):
+# header lines of the dump, see lean/LyModel/XPath/Yang.lean
+def yang_parse(text):
+    """-> (keyword, argument or None, [substatements])"""
+    import re
+    toks = re.findall(r'"(?:[^"\\]|\\.)*"|\'[^\']*\'|[{};]|[^\s{};"\']+', text)
+    pos = [0]
+
+    def arg_of(t):
+        if t[0] == '"': return re.sub(r'\\(.)', lambda m: {"n": "\n", "t": "\t"}.get(m.group(1), m.group(1)), t[1:-1])
+        if t[0] == "'": return t[1:-1]
+        return t
+
+    def stmt():
+        kw = toks[pos[0]]; pos[0] += 1
+        arg = None
+        if toks[pos[0]] not in ("{", ";"):
+            arg = arg_of(toks[pos[0]]); pos[0] += 1
+        subs = []
+        if toks[pos[0]] == "{":
+            pos[0] += 1
+            while toks[pos[0]] != "}":
+                subs.append(stmt())
+        pos[0] += 1
+        return (kw, arg, subs)
+    return stmt()
+
+
+def yang_facts(texts):
+    mods = {}
+    for t in texts:
+        m = yang_parse(t)
+        mods[m[1]] = m
+    pmaps = {}
+    for name, m in mods.items():
+        pm = {}
+        for (kw, arg, subs) in m[2]:
+            if kw == "prefix": pm[arg] = name
+            if kw == "import": pm[[a for (k, a, _) in subs if k == "prefix"][0]] = arg
+        pmaps[name] = pm
+
+    def qname(mod, x):
+        if ":" in x:
+            p, n = x.split(":", 1)
+            return pmaps[mod][p] + ":" + n
+        return mod + ":" + x
+    out = ["#mods " + " ".join(mods)]
+    # identities, bases first
+    ids = {}
+    for name, m in mods.items():
+        for (kw, arg, subs) in m[2]:
+            if kw == "identity": ids[name + ":" + arg] = [qname(name, a) for (k, a, _) in subs if k == "base"]
+    done = []
+    while len(done) < len(ids):
+        for i, bs in ids.items():
+            if i not in done and all(b in done for b in bs): done.append(i)
+    out += ["#ident " + " ".join([i] + ids[i]) for i in done]
+    # data nodes
+    leaves = {}     # schema path -> (module, type statement)
+
+    def walk(mod, stmts, path):
+        for (kw, arg, subs) in stmts:
+            if kw in ("container", "list"): walk(mod, subs, path + "/" + mod + ":" + arg)
+            elif kw in ("choice", "case"): walk(mod, subs, path)
+            elif kw in ("leaf", "leaf-list"): leaves[path + "/" + mod + ":" + arg] = (mod, [s for s in subs if s[0] == "type"][0])
+    for name, m in mods.items():
+        walk(name, m[2], "")
+        for (kw, arg, subs) in m[2]:
+            if kw == "augment": walk(name, subs, "/" + "/".join(qname(name, x) for x in arg.strip("/").split("/")))
+
+    def lref_path(mod, leafpath, txt):
+        """path text with module-name prefixes; schema path of the target"""
+        segs = txt.split("/")
+        absolute = txt.startswith("/")
+        cur = [] if absolute else leafpath.strip("/").split("/")
+        outsegs = []
+        for sg in segs[1:] if absolute else segs:
+            if sg == "..":
+                cur = cur[:-1]; outsegs.append("..")
+            else:
+                q = qname(mod, sg); cur.append(q); outsegs.append(q)
+        return ("/" if absolute else "") + "/".join(outsegs), "/" + "/".join(cur)
+
+    def type_desc(path, mod, ty, depth=0):
+        (_, tname, subs) = ty
+        ints = {"int8": "i8", "int16": "i16", "int32": "i32", "int64": "i64", "uint8": "u8", "uint16": "u16", "uint32": "u32", "uint64": "u64"}
+        if tname in ints: return ints[tname]
+        if tname == "decimal64": return "d" + [a for (k, a, _) in subs if k == "fraction-digits"][0]
+        if tname == "identityref": return "idref:" + ",".join(qname(mod, a) for (k, a, _) in subs if k == "base")
+        if tname == "bits":
+            items, hi = [], -1
+            for (k, a, ss) in subs:
+                if k != "bit": continue
+                pos = [int(x) for (kk, x, _) in ss if kk == "position"]
+                v = pos[0] if pos else hi + 1
+                hi = max(hi, v); items.append((v, a))
+            return "bits:" + ",".join("%s=%d" % (a.encode().hex(), v) for (v, a) in sorted(items))
+        if tname == "leafref" and depth < 8:
+            txt = [a for (k, a, _) in subs if k == "path"][0]
+            if "[" in txt: return None
+            _, target = lref_path(mod, path, txt)
+            tm, tt = leaves[target]
+            return type_desc(target, tm, tt, depth + 1)
+        return None       # string, boolean, enumeration: no canonisation; anything else: not modelled
+    for path, (mod, ty) in leaves.items():
+        (_, tname, subs) = ty
+        if tname == "enumeration":
+            items, hi = [], None
+            for (k, a, ss) in subs:
+                if k != "enum": continue
+                val = [int(x) for (kk, x, _) in ss if kk == "value"]
+                v = val[0] if val else (0 if hi is None else hi + 1)
+                hi = v if hi is None else max(hi, v); items.append("%s=%d" % (a, v))
+            out.append("#enum %s %s" % (path, " ".join(items)))
+        if tname == "leafref":
+            txt = [a for (k, a, _) in subs if k == "path"][0]
+            if "[" not in txt:
+                out.append("#leafref %s %s" % (path, lref_path(mod, path, txt)[0].encode().hex()))
+        d = type_desc(path, mod, ty)
+        if d: out.append("#type %s %s" % (path, d))
+    return "\n".join(out) + "\n"
+
+
+FACTS = yang_facts([YANG_A, YANG_B])
+
+
+def with_facts(dump_hex):
+    """the dump as the engine gets it: the schema facts in front of libyang's XML view"""
+    from vlib.proto import unhex
+    body = unhex(dump_hex) if dump_hex != "-" else b""
+    return hexs(FACTS.encode() + body)
 
 
 def xml_esc(s):
@@ -87,6 +238,11 @@ def gen_value(rng, typ, key=False):
     if typ == ENUM: return rng.choice(ENUM_POOL)
     if typ == BITS: return rng.choice(BITS_POOL)
     if typ == IDREF: return rng.choice(IDREF_POOL)
+    if typ == ENUM2: return rng.choice(ENUM2_POOL)
+    if typ == DEC: return rng.choice(DEC_POOL)
+    if typ == U8: return str(rng.choice(U8_POOL))
+    if typ == IDREF2: return rng.choice(IDREF2_POOL)
+    if typ == LREFI: return str(rng.choice(INT_POOL))
     raise ValueError(typ)
 
 
@@ -289,6 +445,10 @@ def size(e):
 
 # ----------------------------------------------------------------------------------------------------------------------
 # type-directed generation
+# XSD patterns for re-match(): inside what both libyang's XSD->PCRE2 rewrite and the XsdRe model implement without a recorded deviation;
+# the last ones do not compile (LY_EVALID)
+RE_POOL = ["[a-z]+", "a.*", "\\d+", "-?\\d+", "(a|b)c?", "x y", ".*", "", "[0-9]{1,2}", ".{2,}", "[^a]*", "\\s*\\S+\\s*", "(xpa|xpb):id-[a-m]", "x( [yz])*",
+           "[+-]?[0-9]+(\\.[0-9]+)?", "ü.*", "one|two|ten", "a**", "[a-", "(a"]
 NUM_LITS = [(0, 0), (1, 0), (2, 0), (3, 0), (5, 0), (10, 0), (5, 1), (25, 2), (15, 1), (275, 2), (100, 0), (4, 0), (7, 0)]
 INT_LITS = [(0, 0), (1, 0), (2, 0), (3, 0), (4, 0), (5, 0)]
 
@@ -302,6 +462,73 @@ class Gen:
         self.vals = vals or []
         self.names = []
         self._collect(schema)
+        self.nonroot = False      # the context node of the expression is a data node (an unprefixed identity name then has a module, F353)
+        self.leaves = []          # (type, [(mod, name)…]) of every terminal
+        self._leaves(schema, [])
+
+    def _leaves(self, nodes, path):
+        for n in nodes:
+            p = path + [(n["mod"], n["name"])]
+            if n["kind"] in ("f", "L"): self.leaves.append((n["type"], p))
+            self._leaves(n["kids"], p)
+
+    def typed_path(self, types=None):
+        """absolute path to the instances of a terminal of one of the given types (any typed terminal if None)"""
+        r = self.rng
+        c = [(t, p) for (t, p) in self.leaves if (t in types if types else t not in (STR, BOOL))]
+        t, p = r.choice(c)
+        return t, ("path", "R", [("child", ("n", m if (r.random() < 0.6 or n in CONFLICT or self.always_prefix) else None, n), [], False) for (m, n) in p])
+
+    def ident_lit(self):
+        r = self.rng
+        x = r.random()
+        if x < 0.70: v = r.choice(["xpa:base-id", "xpa:id-a", "xpa:id-b", "xpa:id-c", "xpa:other", "xpa:id-m", "xpb:idx", "xpb:other"])
+        elif x < 0.88:
+            v = r.choice(["base-id", "id-a", "id-b", "other", "idx", "id-m"])
+            if not self.nonroot: v = "xpa:" + v       # F353: an unprefixed identity at the root context dereferences the NULL module
+        else: v = r.choice(["xpa:nosuch", "zzz:id-a", "xpb:id-a", "xpa:", ":id-a", "xpa:id-a:x", "xpa:id", "xpa:id-aa"])
+        return ("lit", v)
+
+    def noncanon_of(self, typ):
+        """a string that (mostly) is a valid, often non-canonical, lexical form of the type; taken from the tree's own values when possible"""
+        r = self.rng
+        if r.random() < 0.35: return r.choice(NONCANON_POOL)
+        cands = [v for (p, v) in self.vals if p and any(t == typ and q[-1] == p[-1] for (t, q) in self.leaves)]
+        v = r.choice(cands) if cands else gen_value(r, typ if typ not in (LREF,) else STR)
+        if typ in (INT, U8, LREFI): return r.choice(["0" + v if not v.startswith("-") else "-0" + v[1:], "+" + v, " " + v, v + "\n", v, v + ".0", "0x" + v])
+        if typ == DEC: return r.choice([v + "0", "+" + v, "0" + v if not v.startswith("-") else v, v, v.rstrip("0"), v.rstrip("0").rstrip("."), " " + v + " ", v + "1"])
+        if typ == BITS: return r.choice([" ".join(reversed(v.split())), v.replace(" ", "  "), " " + v, v + " x", v, v.replace(" ", "\t")])
+        if typ in (IDREF, IDREF2): return r.choice([v, v.split(":")[-1], "xpa:" + v.split(":")[-1], "xpb:" + v.split(":")[-1], ":" + v])
+        return v
+
+    def yang_bool(self, d, cur):
+        """boolean-valued function calls of RFC 7950 section 10 and comparisons that exercise set_comp_canonize"""
+        r = self.rng
+        x = r.random()
+        if x < 0.3:
+            arg = self.typed_path([IDREF, IDREF2])[1] if r.random() < 0.75 else self.named_path(d, cur)
+            idl = self.ident_lit() if r.random() < 0.93 else self.expr("str", d, cur)
+            own = [v for (p, v) in self.vals if p and p[-1][1] in ("idr", "idl")]
+            if own and r.random() < 0.35:      # the identity a node of the tree holds: derived-from is irreflexive, -or-self is not
+                v = r.choice(own)
+                idl = ("lit", v if ":" in v else "xpa:" + v)
+            return ("fn", r.choice(["derived-from", "derived-from-or-self"]), [arg, idl])
+        if x < 0.5:
+            a = self.expr("str", d, cur) if r.random() < 0.6 else self.typed_path()[1]
+            return ("fn", "re-match", [a, ("lit", r.choice(RE_POOL))])
+        if x < 0.9:
+            t, p = self.typed_path([r.choice([INT, DEC, BITS, IDREF, IDREF2, U8, LREFI, DEC, BITS])])
+            op = r.choice(["eq", "eq", "eq", "ne", "lt", "ge"])
+            lit = ("lit", self.noncanon_of(t))
+            if "'" in lit[1] and '"' in lit[1]: lit = ("lit", "05")
+            return ("bin", op, p, lit) if r.random() < 0.7 else ("bin", op, lit, p)
+        # node-set x node-set: string-values of the first set are canonised by the types of the second
+        return ("bin", r.choice(["eq", "ne"]), self.typed_path()[1] if r.random() < 0.5 else self.path(d, cur)[0], self.typed_path()[1])
+
+    def deref(self, d, cur):
+        r = self.rng
+        arg = self.typed_path([LREF, LREFI])[1] if r.random() < 0.8 else self.named_path(d, cur)
+        return ("fn", "deref", [arg])
 
     def _collect(self, nodes):
         for n in nodes:
@@ -475,8 +702,10 @@ class Gen:
                     return self.path(depth, cur)[0]
             if x < 0.85:
                 return ("bin", "union", self.expr("ns", depth - 1, cur), self.expr("ns", depth - 1, cur))
-            if x < 0.95:
+            if x < 0.93:
                 return ("filter", self.expr("ns", depth - 1, cur), [self.pred(None, depth - 1) for _ in range(r.choice([1, 1, 2]))])
+            if x < 0.97:
+                return self.deref(depth - 1, cur)
             return ("fn", "current", [])
         if typ == "str":
             x = r.random()
@@ -509,7 +738,8 @@ class Gen:
             if x < 0.84: return ("fn", "number", [self.expr("any", d, cur)] if r.random() < 0.85 else [])
             if x < 0.89: return ("fn", "string-length", [self.expr("str", d, cur)] if r.random() < 0.85 else [])
             if x < 0.93: return ("fn", r.choice(["floor", "round"]), [self.expr("num", d, cur)])
-            if x < 0.96: return ("fn", "ceiling", [self.safe_num(d, cur)])
+            if x < 0.95: return ("fn", "ceiling", [self.safe_num(d, cur)])
+            if x < 0.98: return ("fn", "enum-value", [self.typed_path([ENUM, ENUM2])[1] if r.random() < 0.8 else self.named_path(d, cur)])
             return ("fn", r.choice(["position", "last"]), [])
         if typ == "bool":
             x = r.random()
@@ -524,7 +754,8 @@ class Gen:
             if x < 0.7: return ("fn", "boolean", [self.expr("any", d, cur)])
             if x < 0.8: return ("fn", r.choice(["contains", "starts-with"]), [self.expr("str", d, cur), self.expr("str", d, cur)])
             if x < 0.85: return ("fn", "bit-is-set", [self.named_path(d, cur), ("lit", r.choice(["x", "y", "z", "w"]))])
-            if x < 0.95: return self.path(d, cur)[0]
+            if x < 0.88: return self.path(d, cur)[0]
+            if x < 0.98: return self.yang_bool(d, cur)
             return ("fn", r.choice(["true", "false"]), [])
         raise ValueError(typ)
 
@@ -542,7 +773,7 @@ def bop(op, a, b): return ("bin", op, a, b)
 DOT = ("path", "C", [])
 STAR, NODE, TEXT = ("a",), ("o",), ("t",)
 
-WITNESS_XML = ('<c xmlns="urn:xpa"><s>hello</s><n>5</n><b>true</b><e>two</e><bits>x z</bits><ll>3</ll><ll>1</ll><ll>-7</ll><ls>b</ls><ls/>'
+WITNESS_XML = ('<c xmlns="urn:xpa"><s>hello</s><n>5</n><b>true</b><e>two</e><bits>x z</bits><ll>3</ll><ll>1</ll><ll>-7</ll><aref>99</aref><ls>b</ls><ls/>'
                '<l1><k>a</k><v>1</v><w>p</w><w>q</w><in><x>ax</x><y>7</y></in></l1>'
                '<l1><k>b</k><v>2</v><in><x>bx</x></in><v xmlns="urn:xpb">bv</v></l1><l1><k>c</k></l1>'
                '<l2><k1>a</k1><k2>1</k2><v>a1</v><l3><k>x</k><v>1</v></l3><l3><k>y</k><v>2</v></l3></l2>'
@@ -578,6 +809,10 @@ WITNESSES = [
     ("F256", 0, bop("lt", absp(st("nosuch")), fn("true"))), ("F256", 0, bop("gt", fn("false"), absp(C_, st("ll")))),
     ("F261", 0, fn("floor", bop("div", num(1), num(0)))), ("F261", 0, fn("floor", bop("div", num(0), num(0)))),
     ("F264", 0, fn("substring", lit("12345"), ("neg", bop("div", num(1), num(0))))),
+    ("F354", 0, fn("count", fn("deref", absp(C_, st("aref"))))), ("F354", 0, fn("deref", absp(C_, st("aref")))),
+    ("F355", 0, bop("eq", absp(C_, st("n")), lit("05"))), ("F355", 0, bop("eq", absp(C_, st("n")), lit(" +5 "))),
+    ("F355", 0, bop("eq", absp(C_, st("bits")), lit("z x"))), ("F355", 0, bop("eq", lit("3.0"), absp(C_, st("ll")))),
+    ("F355", 0, bop("ne", absp(C_, st("n")), lit("05"))),
     ("F257", 0, ("path", ("E", U_C_L1), [st(STAR)])),
     ("F257", 0, absp(st(STAR, ds=True), st(STAR))),
     ("F257", 0, ("path", ("E", U_C_L1), [st("k", ds=True)])),
@@ -597,6 +832,8 @@ CRASH_WITNESSES = [
     ("F37", WITNESS_XML, 0, absp(C_, st("ll", preds=[fn("number", lit("x"))]))),
     ("F259", WITNESS_XML_F59, 0, absp(C_, st("d"), st(STAR, "preceding-sibling"))),
     ("F32", WITNESS_XML, 0, fn("bit-is-set", ("path", "R", []), lit("x"))),
+    ("F353", WITNESS_XML, 0, fn("derived-from", absp(C_, st("idr")), lit("id-a"))),
+    ("F353", WITNESS_XML, 1, fn("derived-from-or-self", absp(C_, st("idr")), lit("*"))),
 ]
 
 
